@@ -35,7 +35,7 @@ func init() {
 		Run:        runC17,
 		Rule:       "one run = scripts of tokenizer operations (new, next×k, drain, reset, abandon, next-after-error) for 1..4 simulated goroutines over generated valid and structurally broken documents, plus pool policy and schedule, all from the tape; non-trivial = a tokenizer was reused after Reset, or a scope stack went through the pool to another tokenisation, or a context switch happened; distinct = distinct hash of (scripts, documents, schedule trace)",
 		FaultKinds: []string{"abandon-with-open-scopes", "reset-mid-document", "reset-after-error", "invalid-document", "stack-reused-from-pool", "next-after-error", "context-switch-between-next", "pool-policy:lifo", "pool-policy:fifo", "pool-policy:random", "pool-policy:never-reuse", "pool-policy:drop-on-put"},
-		ProbeNames: []string{"tokenisations", "valid-tokenisations-fully-checked", "tokens-checked", "invalid-tokenisations", "empty-container-inside-non-empty", "key-after-nested-object", "depth>=8", "depth>=32", "pool-cross-task-handoff", "pool-reuse", "strings-with-escapes-checked", "numbers-checked"},
+		ProbeNames: []string{"tokenisations", "valid-tokenisations-fully-checked", "tokens-checked", "invalid-tokenisations", "empty-container-inside-non-empty", "key-after-nested-object", "depth>=8", "depth>=32", "siblings>=65536", "pool-cross-task-handoff", "pool-reuse", "strings-with-escapes-checked", "numbers-checked"},
 		Real:       []string{"json.Tokenizer, stack pool, scalar scanners (json/token.go, json/parse.go) compiled from /repo's working tree with sync redirected to the shim"},
 		Model:      []string{"sync.Pool (simulated: LIFO/FIFO/random/never-reuse/drop, double-put monitor)", "scheduler (token passing, choices from the tape)", "reference: token stream of encoding/json.Decoder.Token plus a ten-line scope stack for Depth/Index/IsKey; json.Compact for the concatenation"},
 		Assumptions: []string{
@@ -190,6 +190,40 @@ func c17GenDoc(t *tape.Tape) []byte {
 	var b []byte
 	if t.Chance(1, 4) {
 		b = g.WS(b, t.Range(1, 3))
+	}
+	if t.Chance(1, 1500) {
+		// a very wide container: sibling counters around 2^8 and 2^16 (+-2)
+		n := []int{254, 255, 256, 257, 258, 65534, 65535, 65536, 65537, 65538, 70000}[t.Intn(11)]
+		obj := t.Bool()
+		if obj {
+			b = append(b, '{')
+		} else {
+			b = append(b, '[')
+		}
+		for i := 0; i < n; i++ {
+			if i > 0 {
+				b = append(b, ',')
+			}
+			if obj {
+				b = append(b, '"', 'k')
+				b = strconv.AppendInt(b, int64(i), 36)
+				b = append(b, '"', ':')
+			}
+			switch i % 3 {
+			case 0:
+				b = append(b, '0'+byte(i%10))
+			case 1:
+				b = append(b, "[]"...)
+			default:
+				b = append(b, "true"...)
+			}
+		}
+		if obj {
+			b = append(b, '}')
+		} else {
+			b = append(b, ']')
+		}
+		return b
 	}
 	switch t.Pick(5, 2, 2, 1) {
 	case 0:
@@ -456,6 +490,9 @@ func runC17(r *core.Run) {
 					if d.maxDep >= 32 {
 						r.Probe("depth>=32")
 					}
+					if len(d.model) >= 2*65536 {
+						r.Probe("siblings>=65536")
+					}
 					if bytes.Contains(st.Doc, []byte("{},")) || bytes.Contains(st.Doc, []byte("[],")) || bytes.Contains(st.Doc, []byte(",{}")) {
 						r.Probe("empty-container-inside-non-empty")
 					}
@@ -613,7 +650,11 @@ func c17Next(tr *c17TaskRes, s *tokState) (more bool) {
 	}
 	tok := s.tok
 	doc := s.d.doc
-	s.calls++
+	if !s.done && !s.errSet {
+		// the bound is on reaching the end (or an error); calls made afterwards to
+		// check stickiness do not count
+		s.calls++
+	}
 	if s.calls > 2*len(doc)+8 {
 		return fail("no-termination", "tokenizer did not terminate within %d Next calls", s.calls)
 	}
